@@ -75,21 +75,27 @@ class Rec(WM.WcMatch):
         self._tick('vfile', base, name)
         return True
 
+    quiet = False     # quiet: on_skip / on_error return None, as the default hooks do
+
     def on_skip(self, base, name):
         self._tick('skip', base, name)
-        return ('skip', os.path.join(base, name))
+        return None if self.quiet else ('skip', os.path.join(base, name))
 
     def on_error(self, base, name):
         self._tick('error', base, name)
-        return ('error', os.path.join(base, name))
+        return None if self.quiet else ('error', os.path.join(base, name))
 
     def on_match(self, base, name):
         self._tick('match', base, name)
         return ('match', os.path.join(base, name))
 
 
-def fresh(root, pat, excl, flags):
-    return Rec(root, pat, excl, flags)
+class QuietRec(Rec):
+    quiet = True
+
+
+def fresh(root, pat, excl, flags, quiet=False):
+    return (QuietRec if quiet else Rec)(root, pat, excl, flags)
 
 
 def begin(w):
@@ -123,6 +129,7 @@ def check_tree(ctx, tr, rng, k, quick):
     w = fresh(root, pat, excl, flags)
     begin(w)
     R = w.match()
+    w0_R = R
     base_log = list(w.log)
     nhooks = w.n
     skipped0 = w.get_skipped()
@@ -140,19 +147,24 @@ def check_tree(ctx, tr, rng, k, quick):
     for v in R:
         if not (isinstance(v, tuple) and v[0] in ('match', 'skip', 'error')):
             ctx.disagree('a hook return value does not pass through unchanged', dict(wit0, value=repr(v)))
-    # -- (1) kill from every hook invocation ----------------------------------------------------
+    # -- (1) kill from every hook invocation (hooks that return values, then quiet hooks) -------------
     truncating = 0
-    for kpt in range(nhooks + 1):
+    wq = fresh(root, pat, excl, flags, quiet=True)
+    begin(wq)
+    Rq = wq.match()
+    for quiet, Rx in ((False, R), (True, Rq)):
+      for kpt in range(nhooks + 1):
         ctx.evals()
         ctx.count('abort_points_hook')
-        w = fresh(root, pat, excl, flags)
+        w = fresh(root, pat, excl, flags, quiet)
         begin(w)
         w.kill_at = kpt
         out = []
         pos_at_kill = None
         for v in w.imatch():
             out.append(v)
-        wit = dict(wit0, kill_at_hook=kpt, hooks_total=nhooks)
+        wit = dict(wit0, kill_at_hook=kpt, hooks_total=nhooks, quiet_hooks=quiet)
+        R = Rx
         if out != R[:len(out)]:
             ctx.disagree('killed run is not a prefix of the uninterrupted run', dict(wit, got=out[:10], full=R[:10]))
             continue
@@ -188,6 +200,8 @@ def check_tree(ctx, tr, rng, k, quick):
                 ctx.disagree('after reset() the run is not complete again', wit)
         elif out != R:
             ctx.disagree('run without kill differs', wit)
+    R = Rx = None
+    R = w0_R
     ctx.count('truncating_kills', truncating)
     # -- (2) kill between yields ------------------------------------------------------------------
     for jpt in range(len(R) + 1):
